@@ -199,6 +199,9 @@ def _check_rows(model, table, ph, rows, ta, tol, enabled, out, stats):
             if "C01" in E and k != "PMux" and vin != exp_vin:
                 out.append(("C01", "vin-equals-parent-vout", "phase %r %s: Vin=%r parent %s Vout=%r" % (ph, n, vin, par, exp_vin)))
                 return
+            if "C05" not in E and "C01" in E and k == "PMux" and vin != exp_vin:
+                out.append(("C01", "vin-equals-parent-vout", "phase %r %s: Vin=%r, selected input %r Vout=%r" % (ph, n, vin, par, exp_vin)))
+                return
             if "C05" in E and k == "PMux" and vin != exp_vin:
                 out.append(("C05", "mux-vin-is-selected-input", "phase %r %s: Vin=%r selected %r Vout=%r" % (ph, n, vin, par, exp_vin)))
                 return
@@ -537,6 +540,26 @@ def check_rail_rep(model, table, rr, same_as_solve, out, stats):
             ri = r.get("Rail in", "")
             if ri:
                 want.setdefault((ph, ri), []).append(n)
+    # the same set derived from the reference model: every named rail whose
+    # owner actually feeds a component in the phase (a mux counts on the rail
+    # of its selected input)
+    want_m, extras = set(), set()
+    for ph in table.phases:
+        rows = table.comp[ph]
+        for n in model.order:
+            par, _ = feeder(model, rows, n)
+            if par is None and model.parents[n]:
+                if len(model.parents[n]) == 1 and model.kind(n) != "PMux":
+                    par = model.parents[n][0]
+                else:
+                    # a mux without a live input is fed by no rail: whichever of
+                    # its inputs' rails the table books it on is accepted
+                    extras.update((ph, model.rails[q]) for q in model.parents[n] if model.rails.get(q))
+            if par is not None and model.rails.get(par):
+                want_m.add((ph, model.rails[par]))
+    if not (want_m <= set(want) <= (want_m | extras)):
+        out.append(("C08", "rail-in-column-follows-configured-rails", "rails feeding components per model %s, per the table's Rail in column %s" % (sorted(want_m)[:6], sorted(want)[:6])))
+        return
     if rr is None:
         if want:
             out.append(("C08", "rails-listed", "rail_rep() returned None but rails %s feed components" % sorted(want)[:4]))
